@@ -73,6 +73,10 @@ def _run(tape, clock):
         body_mut.append(st)
         if st[0] in ('in', 'out') and tape.draw(2):
             body_mut.append(['mut'])
+    if copy_on and tape.draw(2) == 1 and body_mut:
+        # the interceptions (and the mutations that follow them) happen on a worker thread of the operation
+        run.probe('interception_on_worker_thread')
+        body_mut = [['spawn', [body_mut], False]]
     spec_rec = copy.copy(spec)
     spec_rec.body = body_mut if copy_on else spec.body
     spec_play = copy.copy(spec)
@@ -90,7 +94,8 @@ def _run(tape, clock):
         recorder.enable_recording()
         env = R.Env(spec_rec, run, recorder)
         env.fresh_copies = True
-        svc = R.Service(spec_rec, env, recorder)
+        from props.c09 import real_thread_factory
+        svc = R.Service(spec_rec, env, recorder, thread_factory=real_thread_factory)
         svc.mut_tape = tape
         out = R.call_outcome(svc.invoke)
         rec_id = [c[1] for c in spy.calls if c[0] == 'create'][-1]
@@ -158,6 +163,19 @@ def _run(tape, clock):
         try:
             run.check(V.canon(cas2.get_recording_metadata(rec_id)) == meta0, 'fetches_are_independent', 'metadata-only-fetch-differs',
                       'metadata fetched on its own differs after mutating a fetched recording\'s metadata')
+            # metadata fetched on its own is handed out too: mutate it, fetch again, and look the recording up by metadata
+            for c_ in (cas2, cas):
+                md = c_.get_recording_metadata(rec_id)
+                if V.mutate_in_place(tape, md):
+                    run.probe('mutated_metadata_only_fetch')
+                md['user_key'] = 'MUTATED'
+                md[T.INCOMPLETE_RECORDING] = True
+                run.check(V.canon(c_.get_recording_metadata(rec_id)) == meta0, 'fetches_are_independent', 'metadata-only-fetch-aliased',
+                          'mutating the dict returned by get_recording_metadata changed what a later get_recording_metadata returns')
+                if not (store.kind == 's3' and store.key_prefix == '' and False):
+                    found = list(c_.iter_recording_ids(spec.op.name, metadata={T.INCOMPLETE_RECORDING: [False, None]}))
+                    run.check(rec_id in found, 'fetches_are_independent', 'lookup-sees-mutated-metadata',
+                              'after mutating handed-out metadata the recording is no longer found by its recorded metadata')
         except Exception as ex:
             run.violate('fetches_are_independent', 'metadata-fetch-raised', 'get_recording_metadata raised %r' % (ex,))
         # ---- replays: replayed code mutates injected inputs; recorded outputs handed out are mutated between replays
@@ -165,7 +183,7 @@ def _run(tape, clock):
         for n in range(2):
             rep_rec = TapeRecorder(cas2)
             env2 = R.Env(spec_play, run, rep_rec)
-            svc2 = R.Service(spec_play, env2, rep_rec)
+            svc2 = R.Service(spec_play, env2, rep_rec, thread_factory=real_thread_factory)
             svc2.mut_tape = tape
             rep = R.call_outcome(lambda: rep_rec.play(rec_id, lambda recording: svc2.invoke()))
             if rep.kind != 'return':
@@ -189,13 +207,29 @@ def _run(tape, clock):
             for o in pb.playback_outputs:
                 if V.mutate_in_place(tape, o.value):
                     run.probe('mutated_playback_output')
+            # what was handed out as recorded outputs was just mutated: the recording attached to this Playback (what a
+            # comparison-data extractor receives) must still read the recorded values
             rr = pb.original_recording
+            for k in keys:
+                if V.canon(rr.get_data(k)) != originals[k]:
+                    run.violate('reads_are_fresh_copies', 'recorded-outputs-alias-the-recording',
+                                'mutating Playback.recorded_outputs changed what Playback.original_recording reads under %r' % (k[:60],))
+                    break
             for k in keys[:3]:
                 V.mutate_in_place(tape, rr.get_data(k))
         # observations of the replay equal a replay that does not mutate (each injected value is a fresh copy)
         rep_rec = TapeRecorder(cas2)
-        env3 = R.Env(spec, run, rep_rec)
-        svc3 = R.Service(spec, env3, rep_rec)
+        def strip_mut(steps):
+            out = []
+            for st in steps:
+                if st[0] == 'mut':
+                    continue
+                out.append(['spawn', [strip_mut(b) for b in st[1]], st[2]] if st[0] == 'spawn' else st)
+            return out
+        spec_clean = copy.copy(spec_play)
+        spec_clean.body = strip_mut(spec_play.body)
+        env3 = R.Env(spec_clean, run, rep_rec)
+        svc3 = R.Service(spec_clean, env3, rep_rec, thread_factory=real_thread_factory)
         rep3 = R.call_outcome(lambda: rep_rec.play(rec_id, lambda recording: svc3.invoke()))
         if rep3.kind == 'return' and first is not None:
             clean = V.canon(svc3.last_result) if svc3.last_result is not None else type(svc3.last_raised).__name__
